@@ -316,7 +316,31 @@ func (s *simState) yield(site int32, forceDecision bool) {
 				s.handoff(cur, next, site)
 			}
 		}
+	case "sync":
+		// concentrate preemptions around synchronisation operations (site 0: lock, unlock, Add/Done, Wait,
+		// channel operations, sync.Map operations): most ordering bugs live within a statement or two of one
+		p := 0.02
+		if site == 0 {
+			p = 0.5
+		}
+		if s.rng.float() < p {
+			next := s.pickNext(cur)
+			if next != nil {
+				s.preempt++
+				s.handoff(cur, next, site)
+			}
+		}
 	default: // "np": never preempt at a plain yield
+	}
+}
+
+// AfterSync is a scheduling point right after a synchronisation operation
+// completed (unlock, Done, send, receive, close).
+//
+//go:norace
+func AfterSync() {
+	if s := S; s != nil {
+		s.yield(0, false)
 	}
 }
 
